@@ -29,12 +29,24 @@ STAGE_OF = {"src": "checkout", "build": "build", "dist": "package"}
 BID_CONFIGS = [(b"", b""), (b"w", b"\x01" * 20), (b"ml", None)]   # (platform tag, fingerprint)
 
 
-def evaluate(root, sandbox, project=None, cap=600, bids=False):
+def evaluate(root, sandbox, project=None, cap=600, bids=False, memo=True):
+    """memo=False: every package is computed from its own inputs (the reuse of already calculated packages in
+    Recipe.prepare is switched off from outside by making PackageMatcher.matches answer False)"""
     from gen import projects as G
     from gen import stepdesc as S
     from bob.errors import ParseError, BobError
+    import bob.input
     cwd = os.getcwd()
+    orig_matches = bob.input.PackageMatcher.matches
     try:
+        if not memo:
+            bob.input.PackageMatcher.matches = lambda self, *a, **kw: False
+            # the persisted package tree of an earlier evaluation in this directory would be loaded instead
+            for f in (".bob-packages.pickle", ".bob-packages-sb.pickle"):
+                try:
+                    os.unlink(os.path.join(root, f))
+                except OSError:
+                    pass
         try:
             loaded = G.load_project(root, sandbox)
             steps = loaded.steps(cap)
@@ -68,13 +80,20 @@ def evaluate(root, sandbox, project=None, cap=600, bids=False):
                 rec["bid"] = []
                 for plat, fp in BID_CONFIGS:
                     b = S.build_id(st, fp, plat)
+                    # which tools are used weakly is taken from the recipe text when the generator spec is at hand
+                    weak_names = None
+                    if pkg in pkgs:
+                        weak_names = project.spec_tools(pkg, STAGE_OF[st.getLabel()])[1]
+                        rec["spec_weak_tools"] = sorted(weak_names)
                     rec["bid"].append({"platform": plat.hex(), "fingerprint": None if fp is None else fp.hex(),
                                        "id": b.hex(), "req": S.lean_bid_request(st, rec["desc"], fp, plat),
                                        # the same Build-Id with another installed variant of every weakly used tool
-                                       "id_other_weak_tools": S.build_id(st, fp, plat, weak_tag=b"other").hex()})
+                                       "id_other_weak_tools": S.build_id(st, fp, plat, weak_tag=b"other",
+                                                                         weak_names=weak_names).hex()})
             out.append(rec)
         return {"steps": out, "truncated": len(out) >= cap}
     finally:
+        bob.input.PackageMatcher.matches = orig_matches
         os.chdir(cwd)
 
 
@@ -102,7 +121,8 @@ if __name__ == "__main__":
     for job in jobs:
         proj = _G.Project.from_json(job["project"]) if job.get("project") else None
         try:
-            res = evaluate(job["root"], job["sandbox"], proj, job.get("cap", 600), bids=job.get("bids", False))
+            res = evaluate(job["root"], job["sandbox"], proj, job.get("cap", 600), bids=job.get("bids", False),
+                           memo=job.get("memo", True))
         except Exception as e:  # reported to the caller, which decides what it means
             import traceback
             res = {"crash": "".join(traceback.format_exception_only(type(e), e))[-500:]}
